@@ -199,6 +199,9 @@ def r2(ctx, F, rule, sfx):
 
 
 def r3(ctx, F, rule, sfx):
+    from . import c14
+    c14.r3(ctx, F, rule, sfx)          # integrator cell integrals see every tetrahedron the stored volume is built from
+    wrappers_forward(ctx, F, rule, sfx)
     impls = {st.split('::')[-1]: (st, bodies, fields) for st, bodies, fields in c04.face_integral_impls(F)}
     need = ('AreaCentroidIntegral', 'VoronoiFaceIntegral')
     for n in need:
